@@ -20,6 +20,7 @@ EXPLANATION = (
     "deletes the state point file."
     ' A listing filter written as a length-and-alphabet test is decided by the alphabet it accepts (lower-case hex only).'
     ' (h) The job listing does not single out symbolic links (membership follows them); (i) move() creates the destination workspace directory before the rename.'
+    ' (j) schema-import consistency check compared as values (from C16-n); (k) clear() / remove() / reset() delete paths as listed, never what a link resolves to (C03-k). The lazy-field reset is judged at the id write sites when the reset helper was written out.'
 )
 UNDECIDED = ("Equality of the workspace with a model after arbitrary operation histories, check() after every step, several "
              "handles and pickling are behavioural and not decided.")
